@@ -558,6 +558,7 @@ def _resolve(res: RunResult, what: str, fn, budget: int, start: int):
                 res.steps += clk.steps
         return ("ok", v)
     except StepBudgetExceeded:
+        StepClock.acknowledge()
         res.add(PROP, "step_budget", "%s: resolution from start %d did not finish within %d steps" % (what, start, budget),
                 target=what)
         return ("budget", None)
@@ -610,6 +611,7 @@ def _judge(res, sc, target, start, exp, chain_ok, whole_ok, out, mk_stream, expe
             tail = st.read(1)
         res.steps += clk.steps
     except StepBudgetExceeded:
+        StepClock.acknowledge()
         res.add(PROP, "step_budget", "%s: reading the stream of start %d did not finish" % (target, start), target=target + "_stream")
         return
     except Exception as e:      # noqa: BLE001
